@@ -194,6 +194,18 @@ func (r *Run) recordFail(scen string, f Failure, c any) {
 	r.fails[key] = &failRec{Scenario: scen, Sig: f.Sig, Msg: f.Msg, Case: raw, Count: 1}
 }
 
+func (r *Run) recordFailRaw(scen string, f Failure, raw json.RawMessage) {
+	key := scen + "|" + f.Sig
+	r.mu.Lock()
+	defer r.mu.Unlock()
+	r.nfail++
+	if fr, ok := r.fails[key]; ok {
+		fr.Count++
+		return
+	}
+	r.fails[key] = &failRec{Scenario: scen, Sig: f.Sig, Msg: f.Msg, Case: raw, Count: 1}
+}
+
 // tooManyFailures lets explorers stop early once a check is hopelessly red.
 func (r *Run) tooManyFailures() bool {
 	r.mu.Lock()
@@ -346,7 +358,40 @@ func (r *Run) Finish(p *Property) int {
 	sort.Strings(keys)
 	violations := 0
 	knownHits := 0
-	for _, k := range keys {
+	// confirm every new failure by replaying its case 5 times (3 times for watchdog failures, which
+	// cost seconds each) before believing it; confirmations run concurrently
+	reproduced := make([]int, len(keys))
+	needed := make([]int, len(keys))
+	var cwg sync.WaitGroup
+	sem := make(chan struct{}, 8)
+	for i, k := range keys {
+		fr := r.fails[k]
+		if _, ok := known[fr.Scenario+"|"+fr.Sig]; ok {
+			continue
+		}
+		sc := findScenario(p, fr.Scenario)
+		needed[i] = 5
+		if strings.Contains(fr.Sig, "does-not-terminate") || strings.HasPrefix(fr.Sig, "crash|") {
+			needed[i] = 3
+		}
+		if sc == nil || fr.Case == nil {
+			continue
+		}
+		cwg.Add(1)
+		go func(i int, fr *failRec) {
+			defer cwg.Done()
+			sem <- struct{}{}
+			defer func() { <-sem }()
+			for n := 0; n < needed[i]; n++ {
+				res, err := sc.Replay(fr.Case)
+				if err == nil && hasSig(res.Fail, fr.Sig) {
+					reproduced[i]++
+				}
+			}
+		}(i, fr)
+	}
+	cwg.Wait()
+	for i, k := range keys {
 		fr := r.fails[k]
 		fullSig := fr.Scenario + "|" + fr.Sig
 		if kf, ok := known[fullSig]; ok {
@@ -354,19 +399,8 @@ func (r *Run) Finish(p *Property) int {
 			knownHits++
 			continue
 		}
-		// confirm 5x by replay before believing it
-		sc := findScenario(p, fr.Scenario)
-		reproduced := 0
-		if sc != nil {
-			for i := 0; i < 5; i++ {
-				res, err := sc.Replay(fr.Case)
-				if err == nil && hasSig(res.Fail, fr.Sig) {
-					reproduced++
-				}
-			}
-		}
-		if reproduced != 5 {
-			r.harnessErr = append(r.harnessErr, fmt.Sprintf("failure %s reproduced %d/5 on replay (harness nondeterminism): %s", fullSig, reproduced, fr.Msg))
+		if reproduced[i] != needed[i] {
+			r.harnessErr = append(r.harnessErr, fmt.Sprintf("failure %s reproduced %d/%d on replay (harness nondeterminism): %s", fullSig, reproduced[i], needed[i], fr.Msg))
 			continue
 		}
 		violations++
